@@ -77,8 +77,12 @@ def run_case(seed, tier, rec, st):
             if f["tk"] == "date" and any(o is not f and keyset(o) & keyset(f) for o in fields):
                 f["tk"] = "str"
         cfg_aliases = {f["name"]: f["cfg"] for f in fields if f["cfg"] is not None}
-        lines = ["@dataclass", "class M(" + ("DataClassDictMixin" if (discr or rng.random() < 0.75) else "") + "):"]
+        undecorated_root = discr and rng.random() < 0.4
+        stale_bases = (not discr) and rng.random() < 0.25
+        mixin_src = "DataClassDictMixin" if (discr or rng.random() < 0.75) else ""
+        lines = ["@dataclass", "class M(" + ("RootCfg" if undecorated_root else "Mid" if stale_bases else mixin_src) + "):"]
         lines[1] = lines[1].replace("()", "")
+        field_lines_at = len(lines)
         for i, f in enumerate(fields):
             ann = TYPES[f["tk"]][0]
             if f["ann"] is not None:
@@ -94,19 +98,32 @@ def run_case(seed, tier, rec, st):
             if f["meta"] is not None:
                 args.append(f"metadata=field_options(alias={f['meta']!r})")
             lines.append(f"    {f['name']}: {ann}" + (f" = field({', '.join(args)})" if args else ""))
+        declared = lines[field_lines_at:]
         noinit = rng.random() < 0.25
         if noinit:
             # a member that is not a constructor parameter: its name is never an accepted key
-            lines.append("    ni: int = field(default=0, init=False)")
-        lines.append("    class Config(BaseConfig):")
-        lines.append(f"        allow_deserialization_not_by_alias = {allow}")
-        lines.append(f"        forbid_extra_keys = {forbid}")
+            declared.append("    ni: int = field(default=0, init=False)")
+        config = ["    class Config(BaseConfig):", f"        allow_deserialization_not_by_alias = {allow}",
+                  f"        forbid_extra_keys = {forbid}"]
         if cfg_aliases:
-            lines.append(f"        aliases = {cfg_aliases!r}")
+            config.append(f"        aliases = {cfg_aliases!r}")
         if discr:
-            lines.append("        discriminator = Discriminator(field='kind', include_subtypes=True)")
+            config.append("        discriminator = Discriminator(field='kind', include_subtypes=True)")
         if rng.random() < 0.15:
-            lines.append("        lazy_compilation = True")
+            config.append("        lazy_compilation = True")
+        if undecorated_root:
+            # (G) the Config (discriminator, forbid_extra_keys ...) lives on a base that is NOT a dataclass
+            lines = ["class RootCfg(DataClassDictMixin):"] + config + ["@dataclass", "class M(RootCfg):"] + (declared or ["    pass"])
+        elif stale_bases:
+            # (F) three levels: Base declares every field with OTHER aliases, Mid re-declares them (the effective
+            # declarations), M only inherits and carries the Config
+            import re as _re
+            stale = [_re.sub(r"Alias\('([^']*)'\)", lambda m: "Alias('STALE_" + m.group(1) + "')",
+                             _re.sub(r"alias='([^']*)'", lambda m: "alias='STALE_" + m.group(1) + "'", ln)) for ln in declared]
+            lines = (["@dataclass", ("class Base(" + mixin_src + "):").replace("()", "")] + stale + ["@dataclass", "class Mid(Base):"] + declared
+                     + ["@dataclass", "class M(Mid):"] + config)
+        else:
+            lines = lines[:field_lines_at] + declared + config
         if discr:
             # the tagged subclass is what gets deserialized; it inherits the Config (and so the
             # class-level discriminator field, which forbid_extra_keys must accept)
@@ -151,7 +168,7 @@ def run_case(seed, tier, rec, st):
             if k not in cand:
                 cand.append(k)
         cand = cand[:10]
-        cfg_sig = (tuple((f["tk"], f["default"], f["meta"], f["ann"], f["cfg"]) for f in fields), allow, forbid, discr, noinit)
+        cfg_sig = (tuple((f["tk"], f["default"], f["meta"], f["ann"], f["cfg"]) for f in fields), allow, forbid, discr, noinit, undecorated_root, stale_bases)
         sampled = False
         # each candidate key carries a value valid for every field type that may read it
         for mask in itertools.product([False, True], repeat=len(cand)):
@@ -166,9 +183,15 @@ def run_case(seed, tier, rec, st):
                         reader.setdefault(k, f)
                         break
             d = {}
+            nulls = set()
             for j, k in enumerate(present):
                 f = reader.get(k)
                 d[k] = TYPES[f["tk"]][1](j) if f else f"unread-{j}"
+                # an explicit null is a present key like any other (only where every possible reader is nullable)
+                if f and f["tk"] in ("oint", "any") and rng.random() < 0.25 and all(
+                        o["tk"] in ("oint", "any") for o in fields if k in o["accepted"]):
+                    d[k] = None
+                    nulls.add(k)
             if "kind" in d:
                 d["kind"] = "M"
             if forbid and (set(present) - allowed):
@@ -184,11 +207,11 @@ def run_case(seed, tier, rec, st):
                             break
                         res[f["name"]] = f["dflt"]
                     else:
-                        res[f["name"]] = TYPES[f["tk"]][2](d[key])
+                        res[f["name"]] = None if key in nulls else TYPES[f["tk"]][2](d[key])
                 if exp is None:
                     exp = ("ok", res)
             det = lambda **kw: dict({"source": src, "input": common.short(d, 300)}, **kw)
-            facts = {"allow": allow, "forbid": forbid, "discriminator": discr, "none_key_present": "None" in present, "init_false_member": noinit}
+            facts = {"allow": allow, "forbid": forbid, "discriminator": discr, "none_key_present": "None" in present, "init_false_member": noinit, "config_on_undecorated_root": undecorated_root, "fields_redeclared_in_middle_class": stale_bases}
             try:
                 r = dec(dict(d))
                 got = ("ok", {f["name"]: getattr(r, f["name"]) for f in fields})
